@@ -158,13 +158,25 @@ def unconfirmed_key(doc):
 def run(ctx: core.Run):
     t0 = time.time()
     tables = ctx.regenerate(extract_c01.gen_codec) or {}     # a reshaped source is a broken tie, never exit 2
-    ctx.prove(["PsdVerif.Props.C03", "PsdVerif.Props.C03Pixels"])
+    import c03_modes
+    import logging as _logging
+    _lvl = _logging.root.manager.disable
+    _logging.disable(_logging.CRITICAL)          # the creation entry points log a warning per call
+    try:
+        creation = ctx.regenerate(c03_modes.gen_creation) or []
+    finally:
+        _logging.disable(_lvl)
+    ctx.extra["creation_table_rows"] = len(creation)
+    ctx.prove(["PsdVerif.Props.C03", "PsdVerif.Props.C03Pixels", "PsdVerif.Props.C03Creation"])
     ctx.trusted_base += [
         "Lean 4.33 kernel; axioms allowed: propext, Classical.choice, Quot.sound (audited per theorem)",
         "Model/Walker.lean: my transcription of the Adobe Photoshop File Formats Specification (sources and the three "
         "deviations from its text are recorded in the file header); validated on every run against the Photoshop-written fixtures",
         "Model/Psd.lean as the model of the writer: tied to psd-tools by the C01 correspondence (run ./check C01)",
         "harness/extract_c01.py: TaggedBlock._BIG_KEYS and the signature/compression tables regenerated from the live classes",
+        "harness/c03_modes.py: the creation table (one row per creation entry point x accepted mode) is MEASURED on the live "
+        "code with a 9 x 1 RAW raster, not derived from the source text; Model/Creation.lean's colour-plane table is my "
+        "transcription of the specification's header table",
     ]
     ctx.assumptions += [
         "payload interiors (tagged-block data, resource data, compressed pixels) are walked only to their declared length",
@@ -339,11 +351,24 @@ def run(ctx: core.Run):
     c03_extra.run_extra(ctx, tables, fx_all, jobs, answers)
     ctx.extra["phase_seconds"] = round(time.time() - t0, 1)
     if ctx.tier == "thorough":
-        ctx.recheck(["PsdVerif.Props.C03", "PsdVerif.Props.C03Pixels"])
+        ctx.recheck(["PsdVerif.Props.C03", "PsdVerif.Props.C03Pixels", "PsdVerif.Props.C03Creation"])
     # ---- the written-count clause on type-directed payload variants; more writer entry points (deep documents with
     # re-encoded channels, documents with extra channels edited then saved)
     __import__("payload_gen").run_c03(ctx)
     __import__("c03_writers").run(ctx, fx_all)
+    # ---- every creation entry point x every mode it accepts x depth x compression x PSD/PSB
+    t1 = time.time()
+    _logging.disable(_logging.CRITICAL)
+    try:
+        c03_modes.run(ctx)
+    finally:
+        _logging.disable(_lvl)
+    ctx.extra["creation_matrix_seconds"] = round(time.time() - t1, 1)
+    ctx.notes.append(
+        "Props/C03Creation.lean: creation_planes_match_header / creation_header_rule / creation_color_channels_tied are decided "
+        "over Generated/Creation.lean (every creation entry point x every mode it accepts, measured on the live code); "
+        "created_raw_size lifts the agreement to the stored size on the compression model, short_planes_raw / short_planes_rle "
+        "show what its failure looks like (a plane short; a row table whose last `height` entries are 0).")
 
 
 def api_documents(ctx, fx_small):
